@@ -447,3 +447,22 @@ T("C02", "twin-opmat-local", "renormalizer/tn/symbolic_ttno.py", "              
 T("C02", "twin-opmat-cache-by-object", "renormalizer/tn/symbolic_ttno.py", "                mo_elem = np.tensordot(mo_elem, b.op_mat(symbol)[None, :, :, None], axes=1)",
   "                if (b, symbol) not in _CACHE:\n                    _CACHE[(b, symbol)] = b.op_mat(symbol)\n                mo_elem = np.tensordot(mo_elem, _CACHE[(b, symbol)][None, :, :, None], axes=1)",
   "a module-level cache keyed by the basis object itself is sound", more=[{"file": "renormalizer/tn/symbolic_ttno.py", "old": "logger = logging.getLogger(__name__)\n", "new": "logger = logging.getLogger(__name__)\n_CACHE = {}\n"}])
+
+# ------------------------------------------------------------------------------------------------ C16 unit table / model builders, C08 entry gauge, C05 dispatch, C15 operand order
+QUANT = "renormalizer/utils/quantity.py"
+MODEL = "renormalizer/model/model.py"
+M("C16", "unit-fs-inverse", QUANT, '"fs": constant.au2fs,', '"fs": constant.fs2au,', ["unit-table"], "femtosecond factor inverted")
+M("C16", "unit-mev-power", QUANT, '"meV": constant.au2ev * 1e3,', '"meV": constant.au2ev * 1e-3,', ["unit-table"], "milli prefix applied the wrong way")
+M("C16", "ti1d-no-wrap", MODEL, "new_cell_id = (i + old_dof[0]) % ncell", "new_cell_id = min(i + old_dof[0], ncell - 1)", ["model-terms"], "no periodic wrap of non-local terms")
+M("C16", "jmat-one-corner", MODEL, "j_matrix[-1, 0] = j_matrix[0, -1] = j_constant_au", "j_matrix[-1, 0] = j_constant_au", ["model-terms"], "periodic coupling set on one corner only (non-Hermitian)")
+T("C16", "twin-unit-reciprocal", QUANT, '"fs": constant.au2fs,', '"fs": 1 / constant.fs2au,', "the same factor through the reciprocal constant")
+T("C16", "twin-ti1d-wrap", MODEL, "new_cell_id = (i + old_dof[0]) % ncell", "new_cell_id = (old_dof[0] + i) % ncell", "operands of the sum exchanged")
+M("C08", "gs-no-canonicalise", GS, "    else:\n        mps.ensure_left_canonical()\n        env = \"L\"", "    else:\n        env = \"L\"", ["entry-gauge"], "no orthonormalisation on the default path")
+M("C08", "gs-env-side", GS, "        mps.ensure_right_canonical()\n        env = \"R\"", "        mps.ensure_right_canonical()\n        env = \"L\"", ["entry-gauge"], "environments of the wrong side for the gauge")
+M("C05", "both-max", CONFIGS, "            trunc = min(\n                self._threshold_m_trunc(sigma), self._fixed_m_trunc(sigma, idx, left)\n            )",
+  "            trunc = max(\n                self._threshold_m_trunc(sigma), self._fixed_m_trunc(sigma, idx, left)\n            )", ["trunc-bound"], "`both` takes the larger count")
+T("C05", "twin-both-nested-min", CONFIGS, "            trunc = min(\n                self._threshold_m_trunc(sigma), self._fixed_m_trunc(sigma, idx, left)\n            )",
+  "            trunc = self._threshold_m_trunc(sigma)\n            trunc = min(trunc, self._fixed_m_trunc(sigma, idx, left), len(sigma))", "the same minimum built in two steps")
+M("C15", "opsum-mul-reversed", OP, "            for op1 in self:\n                res.extend(op1 * other)", "            for op1 in self:\n                res.extend(other * op1)", ["operand-order"], "OpSum * list multiplies from the wrong side")
+T("C15", "twin-rmul-explicit", OP, "            return OpSum(other) * self\n        else:\n            raise TypeError(f\"Unknwon type {type(other)}\")", "            return OpSum([item * self for item in other])\n        else:\n            raise TypeError(f\"Unknwon type {type(other)}\")",
+  "list * Op written as an explicit comprehension")
